@@ -135,3 +135,198 @@ def rule_linear_subst(ctx):
             res.inst(ikey, f["sp"]["file"], f["sp"]["line"], "ok", "%d alias patterns" % n)
     res.require_floor(3)
     return res
+
+
+def _ids(ctxv):
+    if isinstance(ctxv, Adt) and isinstance(ctxv.fields.get("bindings"), Vec):
+        return [b.fields["var"].fields["id"] for b in ctxv.fields["bindings"].items if isinstance(b, Adt)]
+    return None
+
+
+def _run_events(ctx, key, stmt, context, max_id=50):
+    """like _run, but returns the events (contexts handed to the recursive linearize calls, renamings applied to sub-statements)"""
+    fx = ctx.fx
+    events = []
+
+    def hook(I, p, fr, t, args):
+        n = t.get("callee_name")
+        if n == "linearize" and t.get("callee_trait") == "axcut::traits::linearize::Linearizing":
+            events.append(("linearize", I.deref(args[0]), _ids(I.deref(args[1])) if len(args) > 1 else None))
+            return Sym("lin(%s)" % (getattr(I.deref(args[0]), "name", "?"),))
+        if n == "subst_sim" and (t.get("callee_trait") or "").endswith("substitution::Subst"):
+            sub = I.deref(args[1]) if len(args) > 1 else None
+            pairs = []
+            if isinstance(sub, Vec):
+                for p_ in sub.items:
+                    if isinstance(p_, Adt) and set(p_.fields) >= {"0", "1"} and isinstance(p_.fields["1"], Adt):
+                        pairs.append((p_.fields["0"], p_.fields["1"].fields.get("id")))
+            events.append(("rename", I.deref(args[0]), pairs))
+            return args[0]
+        return NotImplemented
+    I = interp.Interp(fx, hooks=[hook], max_depth=10, max_paths=64, max_steps=100000)
+    holder = Adt(None, None, {"0": max_id})
+    outs = I.run(fx.fn(key), [stmt, context, _MutInt(I, holder)])
+    return [o for o in outs if not getattr(o, "diverged", None)], events
+
+
+def _clause(xtor, ids, body):
+    return Adt(AX + "statements::clause::Clause", "Clause", {"xtor": ident(60 + xtor), "context": tctx(ids), "body": Sym(body)})
+
+
+def rule_linear_ctx(ctx):
+    """R-LINCTX: environments produced by Switch/Create::linearize are exactly what their code generation assumes"""
+    fx = ctx.fx
+    res = RuleResult("R-LINCTX", "Switch::linearize and Create::linearize folded (abstract interpretation of the MIR, recursion into clause bodies "
+                     "and the next statement cut) over every context of up to 3 variables and every choice of free-variable annotations: "
+                     "the environment after the inserted substitution is `kept ++ [scrutinee]` resp. `next variables ++ closure "
+                     "environment` - the layout the code generator takes by position (R-STMT) -, it contains exactly the annotated free "
+                     "variables that are in scope (none missing, none extra), its binders are pairwise distinct, a variable needed on "
+                     "both sides is duplicated under a fresh name and the sub-statement renamed accordingly, every sub-statement is "
+                     "linearized in the environment it will run in, and no substitution is inserted only if the environment is already exact")
+    NONE = Adt("core::option::Option", "None", {})
+    T = Adt(AX + "types::Ty", "Decl", {"0": ident(90)})
+    # ---------------- switch ----------------
+    key = "<axcut::syntax::statements::switch::Switch as axcut::traits::linearize::Linearizing>::linearize"
+    f = fx.fn(key)
+    n, bad = 0, []
+    V = 3       # scrutinee id
+    for clen in range(0, 4):
+        for C in itertools.permutations((1, 2, 3, 4), clen):
+            if V not in C:
+                continue
+            for fv in itertools.chain.from_iterable(itertools.combinations((1, 2, 3, 4), k) for k in range(0, 4)):
+                n += 1
+                cls = Vec([_clause(0, (), "b0"), _clause(1, (7, 8), "b1")])
+                stmt = Adt(AX + "statements::switch::Switch", "Switch", {"var": ident(V), "ty": T, "clauses": cls,
+                                                                        "free_vars_clauses": Adt("core::option::Option", "Some", {"0": SetVal(set(fv))})})
+                outs, events = _run_events(ctx, key, stmt, tctx(C, {V: "Prd"}))
+                if len(outs) != 1:
+                    bad.append((C, fv, "could not be folded (%d paths)" % len(outs)))
+                    continue
+                lins = [e for e in events if e[0] == "linearize"]
+                # the kept variables may be reordered (filter_by_set fills holes from the end): any order, but exactly the
+                # annotated variables in scope, and the same order everywhere
+                kept = lins[0][2] if lins and lins[0][2] is not None else None
+                want_set = sorted(x for x in C if x in fv)
+                if kept is None or sorted(kept) != want_set:
+                    bad.append((C, fv, "the variables kept for the clauses are %s, expected exactly the annotated free variables in scope %s" % (kept, want_set)))
+                    continue
+                want_cl = [kept + [], kept + [7, 8]]
+                if [e[2] for e in lins] != want_cl:
+                    bad.append((C, fv, "clause bodies are linearized in %s, expected %s (kept free variables, then the clause's binders)" % ([e[2] for e in lins], want_cl)))
+                    continue
+                r = outs[0].result
+                pairs = _subst_of(r)
+                inner = r.fields["0"] if isinstance(r, Adt) and r.variant in ("Substitute", "Switch") and isinstance(r.fields.get("0"), Adt) else r
+                if pairs is None:
+                    if list(C) != kept + [V]:
+                        bad.append((C, fv, "no substitution although the environment %s is not kept ++ [scrutinee] = %s" % (list(C), kept + [V])))
+                    continue
+                news, olds = [p[0] for p in pairs], [p[1] for p in pairs]
+                if len(set(news)) != len(news):
+                    bad.append((C, fv, "binders %s are not pairwise distinct" % news))
+                    continue
+                if olds != kept + [V]:
+                    bad.append((C, fv, "the substitution takes %s, expected kept ++ [scrutinee] = %s" % (olds, kept + [V])))
+                    continue
+                if news[:-1] != kept:
+                    bad.append((C, fv, "kept variables are renamed (%s) although the clause bodies still use the old names" % news[:-1]))
+                    continue
+                sw = r.fields["0"].fields.get("next") if isinstance(r.fields.get("0"), Adt) else None
+                swv = None
+                if isinstance(sw, Adt):
+                    sw_in = sw.fields.get("0") if sw.variant == "Switch" and isinstance(sw.fields.get("0"), Adt) else sw
+                    swv = sw_in.fields.get("var").fields.get("id") if isinstance(sw_in.fields.get("var"), Adt) else None
+                if swv is not None and swv != news[-1]:
+                    bad.append((C, fv, "the switch scrutinises variable %s but the substitution binds the scrutinee to %s" % (swv, news[-1])))
+    if bad:
+        C, fv, msg = bad[0]
+        res.inst("switch", f["sp"]["file"], f["sp"]["line"], "violation", "%d of %d" % (len(bad), n))
+        res.violate("switch", "Switch::linearize in environment %s with free variables %s of the clauses: %s [%d of %d cases wrong]" % (list(C), sorted(fv), msg, len(bad), n),
+                    f["sp"]["file"], f["sp"]["line"])
+    else:
+        res.inst("switch", f["sp"]["file"], f["sp"]["line"], "ok", "%d (environment, annotation) cases" % n)
+    # ---------------- create ----------------
+    key = "<axcut::syntax::statements::create::Create as axcut::traits::linearize::Linearizing>::linearize"
+    f = fx.fn(key)
+    n, bad = 0, []
+    W = 9       # the closure variable
+    subsets = list(itertools.chain.from_iterable(itertools.combinations((1, 2, 3), k) for k in range(0, 4)))
+    for clen in range(0, 4):
+        for C in itertools.permutations((1, 2, 3), clen):
+            for fc in subsets:
+                for fnx in subsets:
+                    n += 1
+                    cls = Vec([_clause(0, (7,), "m0"), _clause(1, (), "m1")])
+                    stmt = Adt(AX + "statements::create::Create", "Create", {
+                        "var": ident(W), "ty": T, "context": NONE, "clauses": cls,
+                        "free_vars_clauses": Adt("core::option::Option", "Some", {"0": SetVal(set(fc))}),
+                        "next": Sym("next"), "free_vars_next": Adt("core::option::Option", "Some", {"0": SetVal(set(fnx) | {W})})})
+                    outs, events = _run_events(ctx, key, stmt, tctx(C))
+                    if len(outs) != 1:
+                        bad.append((C, fc, fnx, "could not be folded (%d paths)" % len(outs)))
+                        continue
+                    env_set = [x for x in C if x in fc]
+                    nxt_set = [x for x in C if x in fnx]
+                    lins = [e for e in events if e[0] == "linearize"]
+                    meth = [e for e in lins if isinstance(e[1], Sym) and e[1].name in ("m0", "m1")]
+                    nx = [e for e in lins if e not in meth]
+                    r = outs[0].result
+                    pairs = _subst_of(r)
+                    cr = r
+                    if pairs is not None:
+                        cr = r.fields["0"].fields.get("next") if isinstance(r.fields.get("0"), Adt) else None
+                    if isinstance(cr, Adt) and cr.variant == "Create" and isinstance(cr.fields.get("0"), Adt):
+                        cr = cr.fields["0"]
+                    envc = cr.fields.get("context") if isinstance(cr, Adt) else None
+                    env = _ids(envc.fields.get("0")) if isinstance(envc, Adt) and envc.variant == "Some" else None
+                    if env is None:
+                        bad.append((C, fc, fnx, "the closure environment is not annotated on the result"))
+                        continue
+                    if sorted(env) != sorted(env_set) or len(set(env)) != len(env):
+                        bad.append((C, fc, fnx, "closure environment %s, expected exactly the free variables of the clauses in scope %s" % (env, sorted(env_set))))
+                        continue
+                    if len(meth) != 2 or meth[0][2] != [7] + env or meth[1][2] != env:
+                        bad.append((C, fc, fnx, "method bodies are linearized in %s, expected [arguments ++ environment] = %s" % ([e[2] for e in meth], [[7] + env, env])))
+                        continue
+                    if len(nx) != 1 or nx[0][2] is None:
+                        bad.append((C, fc, fnx, "the next statement is not linearized exactly once"))
+                        continue
+                    next_ctx = nx[0][2]
+                    if next_ctx[-1:] != [W]:
+                        bad.append((C, fc, fnx, "the next statement is linearized in %s: the closure variable must come last" % next_ctx))
+                        continue
+                    new_next = next_ctx[:-1]
+                    ren = [e for e in events if e[0] == "rename"]
+                    if pairs is None:
+                        if list(C) != nxt_set + env or new_next != nxt_set:
+                            bad.append((C, fc, fnx, "no substitution although the environment %s is not next ++ captured = %s" % (list(C), nxt_set + env)))
+                        continue
+                    news, olds = [p[0] for p in pairs], [p[1] for p in pairs]
+                    if len(set(news)) != len(news):
+                        bad.append((C, fc, fnx, "binders %s are not pairwise distinct" % news))
+                        continue
+                    k = len(news) - len(env)
+                    if news[k:] != env or olds[k:] != env:
+                        bad.append((C, fc, fnx, "the captured variables must be the last bindings, under their own names: got %s := %s, expected %s" % (news[k:], olds[k:], env)))
+                        continue
+                    if sorted(olds[:k]) != sorted(nxt_set) or len(set(olds[:k])) != k:
+                        bad.append((C, fc, fnx, "variables handed to the next statement are %s, expected exactly %s" % (olds[:k], sorted(nxt_set))))
+                        continue
+                    if news[:k] != new_next:
+                        bad.append((C, fc, fnx, "the next statement is linearized in %s but the substitution binds %s" % (new_next, news[:k])))
+                        continue
+                    rn = dict(ren[0][2]) if ren else {}
+                    for nw, od in zip(news[:k], olds[:k]):
+                        if nw != od and rn.get(od) != nw:
+                            bad.append((C, fc, fnx, "variable %s is passed on as %s but the next statement is not renamed accordingly (%s)" % (od, nw, rn)))
+                            break
+    if bad:
+        C, fc, fnx, msg = bad[0]
+        res.inst("create", f["sp"]["file"], f["sp"]["line"], "violation", "%d of %d" % (len(bad), n))
+        res.violate("create", "Create::linearize in environment %s, clauses use %s, next uses %s: %s [%d of %d cases wrong]" % (list(C), sorted(fc), sorted(fnx), msg, len(bad), n),
+                    f["sp"]["file"], f["sp"]["line"])
+    else:
+        res.inst("create", f["sp"]["file"], f["sp"]["line"], "ok", "%d (environment, annotations) cases" % n)
+    res.require_floor(2)
+    return res
